@@ -373,8 +373,77 @@ class Body:
             return ("const", op)
         return ("unknown", k)
 
+    def _stable_field(self, l, name, depth):
+        """`x.f` where x = Struct { f: v, .. } once, other fields of x are assigned later but f never is and no
+        `&mut` to x (or into it) exists: v's origin. None when that cannot be said."""
+        if not self.rec.get("transformed"):
+            return None
+        ds = self.defs.get(l, [])
+        if len(ds) < 2:
+            return None
+        ds = self._dedupe_defs(l, ds)
+        whole = [d for d in ds if d[2]]
+        if len(whole) != 1 or whole[0][1] == "T":
+            return None
+        for bi, si, w in ds:
+            if w:
+                continue
+            if si == "T":
+                pl2 = self.blocks[bi]["term"].get("dest") or self.blocks[bi]["term"].get("resume_arg")
+            else:
+                pl2 = self.blocks[bi]["stmts"][si]["pl"]
+            el = pl2["p"][0]
+            if el[0] != "f" or el[2] == name:
+                return None
+        for l2 in self._mut_borrowed():
+            if l2 == l:
+                return None
+        o = peel_var(self._origin_def(l, whole[0], depth + 1))
+        if o[0] == "agg" and o[1] in ("adt", "tuple") and name in o[4]:
+            return o[4][name]
+        return None
+
+    def _variant_payload(self, l, variant, name, depth):
+        ds = self.defs.get(l, [])
+        if not ds or l in self._mut_borrowed():
+            return None
+        ds = self._dedupe_defs(l, ds)
+        hit = []
+        for bi, si, w in ds:
+            if not w or si == "T":
+                return None
+            rv = self.blocks[bi]["stmts"][si]["rv"]
+            if rv["k"] != "agg" or rv.get("ak") != "adt" or rv.get("variant") is None:
+                return None
+            if rv["variant"] == variant:
+                hit.append((bi, si, w))
+        if len(hit) != 1:
+            return None
+        o = self._origin_def(l, hit[0], depth + 1)
+        if o[0] == "agg" and name in o[4]:
+            return o[4][name]
+        return None
+
+    def _mut_borrowed(self):
+        mb = self.__dict__.get("_mb")
+        if mb is None:
+            mb = set()
+            for blk in self.blocks:
+                for st in blk["stmts"]:
+                    if st["k"] == "assign" and ((st["rv"]["k"] == "ref" and st["rv"].get("bk") == "mut") or st["rv"]["k"] == "rawptr"):
+                        pl = st["rv"]["pl"]
+                        if not any(e[0] == "d" for e in pl["p"]):
+                            mb.add(pl["l"])
+            self.__dict__["_mb"] = mb
+        return mb
+
     def origin_place(self, pl, depth=0):
         base = self.origin_local(pl["l"], depth + 1)
+        if pl["p"] and pl["p"][0][0] == "f" and base[0] == "var" and base[3] is None:
+            sf = self._stable_field(pl["l"], pl["p"][0][2], depth)
+            if sf is not None:
+                base = sf
+                pl = {"l": pl["l"], "p": pl["p"][1:]}
         for el in pl["p"]:
             kind = el[0]
             if kind == "d":
@@ -399,6 +468,12 @@ class Body:
                     if inner[0] == "agg" and inner[3] == base[2] and name in inner[4]:
                         base = inner[4][name]
                         continue
+                    # a variable assigned `None` here and `Some(v)` there: its Some payload is v
+                    if inner[0] == "var" and inner[3] is None and self.rec.get("transformed"):
+                        vp = self._variant_payload(inner[1], base[2], name, depth)
+                        if vp is not None:
+                            base = vp
+                            continue
                     # `Ok(x)?` → x (the Continue payload of the `?` of a literal Ok / Some)
                     if base[2] == "Continue" and inner[0] == "try":
                         i2 = inner[1]
